@@ -119,7 +119,15 @@ def rule_equivariance(ck):
             if isinstance(n, ast.Call):
                 nm = callee(P, f, n) or ''
                 args = list(n.args) + ([n.func.value] if isinstance(n.func, ast.Attribute) else [])
-                if nm in ORDER_DEP and any(is_vec(a) for a in args):
+                def canonical(a):
+                    # a sorted copy is the same array whatever order the events are stored in
+                    if isinstance(a, ast.Call):
+                        return (callee(P, f, a) or '') in ('numpy.sort', 'builtins.sorted', 'numpy.unique')
+                    if isinstance(a, ast.Name):
+                        defs = find_assignments(f, a.id)
+                        return bool(defs) and all(isinstance(d_, ast.Assign) and canonical(d_.value) for d_ in defs)
+                    return False
+                if nm in ORDER_DEP and any(is_vec(a) and not canonical(a) for a in args):
                     n_uses += 1
                     bad_any = True
                     ck.ob('C20-D2.orderdep', f, n, n).fail('`%s` applies an order-dependent operation to a per-event vector' % u(n)[:70])
@@ -321,6 +329,10 @@ def rule_own_lookup(ck):
     c11.rule_lookup(ck)
     c08.rule_public_t(ck)
     c08.rule_public_w(ck)
+    # the number of active bins counts bins; a count of non-zero *positions* leaves out the bin stored first
+    ck.clause('D3 (shared C08-D3: the active bins are counted, whichever position they are stored at)')
+    c08.rule_binary_t(ck)
+    c08.rule_public_binary(ck)
 
 
 RULES = [rule_updates, rule_equivariance, rule_cells, rule_observation, rule_order_sources, rule_quantile_multiset, rule_own_lookup]
